@@ -83,6 +83,16 @@ def openapiVerbLower (m : MethodIn) : Str :=
 
 def pathVarsOf (m : MethodIn) : List Str := if m.hasConfig then extractPathParams m.path else []
 
+/-- first occurrences only (`uniquePathParams` in `internal/openapiv3/generator.go`). -/
+def uniqueFirst : List Str → List Str
+  | [] => []
+  | x :: xs => x :: (uniqueFirst xs).filter (fun y => !(y == x))
+
+/-- OpenAPI path parameters: every variable of the FULL template (base path included), once
+(`fix: openapi: declare every variable of the full path template exactly once`). -/
+def openapiPathVars (m : MethodIn) : List Str :=
+  if m.base ≠ [] ∨ m.hasConfig then uniqueFirst (extractPathParams (buildHTTPPath m.base (customPath m))) else []
+
 def route (g : Generator) (m : MethodIn) : Route :=
   match g with
   | .goHttp =>
@@ -95,7 +105,7 @@ def route (g : Generator) (m : MethodIn) : Route :=
       queryNames := if isQueryVerb v then m.queryNames else [], hasBody := isBodyVerb v }
   | .openapi =>
     let v := toUpperStr (openapiVerbLower m)
-    { verb := v, template := openapiPath m, pathVars := pathVarsOf m, queryNames := m.queryNames,
+    { verb := v, template := openapiPath m, pathVars := openapiPathVars m, queryNames := m.queryNames,
       hasBody := isBodyVerb v }
 
 end Sebuf
